@@ -129,6 +129,8 @@ class Program:
                     n = rng.randrange(0, L + 1) if ins.padded else L
                 else:
                     n = rng.randrange(0, min(6, lenlimit + 1) if lenlimit is not None else 6)
+                    if lenlimit is not None and lenlimit <= 260 and depth == 0 and rng.random() < 0.2:
+                        n = lenlimit                                 # the longest string a one-byte length field can carry
                 return self.gen_string(rng, n, enc_safe, ff_ok)
             return self.gen_string(rng, None, enc_safe, ff_ok)
         if tref.kind == "blob":
@@ -201,6 +203,9 @@ class Program:
                     n = rng.randrange(0, 3 if depth > 0 else 4)
                     if ins.length is not None:
                         n = max(n, lf[ins.length].offset)
+                        lim = X.resolve_type(self.spec, lf[ins.length].type).limit
+                        if lim <= 256 and depth == 0 and rng.random() < 0.2:
+                            n = lim - 1 + lf[ins.length].offset      # the longest array a one-byte length field can carry
                 kwargs[ins.name] = [self.gen_scalar(tref, rng, None, safe, depth, sanit=modes.get(id(ins), True)) for _ in range(n)]
             elif ins.tag == "switch":
                 tref = types_[ins.field]
